@@ -23,6 +23,7 @@ type gthread struct {
 	done    bool
 	started bool
 	lazy    bool
+	quiescing bool
 }
 
 type ChoicePoint struct {
@@ -294,6 +295,8 @@ func (s *Sched) reschedule(cur *gthread, kind string) {
 func (s *Sched) Yield(label string) {
 	s.cur.waitOn = "yield:" + label
 	s.reschedule(s.cur, "yield")
+	// the goroutine passes the yield point now
+	s.R.YieldLog = append(s.R.YieldLog, label)
 }
 
 // block until pred holds
